@@ -12,6 +12,7 @@ import (
 	"golang.org/x/tools/go/packages"
 	"golang.org/x/tools/go/ssa"
 
+	"verif/checker/esp"
 	"verif/checker/layout"
 	"verif/checker/load"
 )
@@ -26,6 +27,7 @@ func init() {
 			"R3 refusal: every function with constant accesses to a []byte parameter has a length guard covering its largest bound (unexported functions: every call site passes a constant-width slice of sufficient width); narrowing integer conversions in writers are preceded by a range check of the source that returns an error. " +
 			"R4 stream codecs: for every type with a Marshal/Unmarshal (or MarshalToBytes/UnmarshalFromBytes) pair the ordered field sequences agree; fixed-size HOB writers return the sum of the static sizes of what they write. " +
 			"R5 read counts: every io.Reader.Read call in eventlog and ovmf/abi has its count compared with the requested length (or is io.ReadFull). " +
+			"R8 a decoding helper that returns its result through a pointer-to-slice parameter assigns it before every successful return (no stale destination). " +
 			"R7 a stream encoder (function of eventlog / ovmf/abi taking a writer) never writes a prefix x[:k] of an encoded field unless len(x) == k was established on the path: an over-long value is refused, not truncated. " +
 			"R6 no slice in the codec packages is extended beyond its own length (bound computed upwards from len(x) or admitted by cap(x)): padding is appended, never uncovered from the backing array. R1 additionally treats copy(p[lo:hi], src) in a range-writer helper as filling the range only if the helper itself enforces len(src) == hi-lo. " +
 			"Not covered: decode∘encode identity as values, zero-padding tolerance, GUID byte-order correctness.",
@@ -508,6 +510,73 @@ func runC18(c *Ctx) {
 			}
 		}
 	}
+	// ---------------- R8 decoders assign their destination on every successful path ----------------
+	// A decoding helper of the codec packages that returns its result through a pointer-to-slice parameter stores
+	// through it before every nil-error return: an accepted encoding never leaves the destination's previous
+	// contents in place (what is decoded depends on the bytes alone).
+	nOut := 0
+	for _, f := range c.P.RepoFunctions() {
+		switch load.RelPkg(f) {
+		case "eventlog", "ovmf/abi":
+		default:
+			continue
+		}
+		if c.isTestFunc(f) || errIndex(f.Signature) < 0 {
+			continue
+		}
+		for pi, p := range f.Params {
+			if f.Signature.Recv() != nil && pi == 0 {
+				continue
+			}
+			pt, ok := p.Type().(*types.Pointer)
+			if !ok {
+				continue
+			}
+			if _, isSl := pt.Elem().Underlying().(*types.Slice); !isSl {
+				continue
+			}
+			hasStore := false
+			for _, ref := range *p.Referrers() {
+				if st, ok := ref.(*ssa.Store); ok && st.Addr == ssa.Value(p) {
+					hasStore = true
+				}
+			}
+			if !hasStore {
+				continue
+			}
+			nOut++
+			const bSet uint = 0
+			pp := p
+			r := &esp.Rule{Name: "C18.R8"}
+			r.Relevant = func(*ssa.Function) bool { return false }
+			r.Match = func(in ssa.Instruction) []esp.Ev {
+				if st, ok := in.(*ssa.Store); ok && st.Addr == ssa.Value(pp) {
+					return []esp.Ev{{ID: 0, Name: "destination assigned", ErrIdx: -1, BoolIdx: -1}}
+				}
+				return nil
+			}
+			r.Step = func(x *esp.Ctx, s esp.State, ev esp.Ev, ph esp.Phase) (esp.State, string) {
+				if ph == esp.AtCall {
+					return s.Set(bSet), ""
+				}
+				return s, ""
+			}
+			ei := errIndex(f.Signature)
+			r.AtReturn = func(x *esp.Ctx, s esp.State, rets []esp.Abs) string {
+				if rets[ei] != esp.NonZero && !s.Has(bSet) {
+					return "R8: the decoder may return success without assigning its destination: the caller keeps whatever the destination held before (a value decoded earlier)"
+				}
+				return ""
+			}
+			e := c.engine(r)
+			e.Run(f, esp.State{})
+			if c.reportEngine(e, "R8", func(v *esp.Violation) string { return load.FuncName(f) + ":" + pp.Name() + " assigned" }) == 0 {
+				c.S.OK("R8", load.FuncName(f)+":"+pp.Name()+" assigned", c.pos(f.Pos()), "every successful return follows a store through the out-parameter", true)
+			}
+		}
+	}
+	c.S.Floor("R8", "decoders with a pointer-to-slice out-parameter", 1, nOut)
+
 	// ---------------- R7 no silent truncation in stream encoders ----------------
 	// a stream encoder (a function of the codec packages that takes an io.Writer) that re-slices a value field to
 	// x[:k] before writing it drops the bytes beyond k; that is a refusal case unless len(x) == k was established.
